@@ -19,6 +19,39 @@ func OASStructureCatalogue() []*Request {
 	q := func(id, t string) string { return id + ".v1." + t }
 	res := func() *Message { return M("Res", F("ok", 1, "bool")) }
 
+	{ // a nested declaration that no reachable FIELD uses, whose own fields are the only way to reach further messages
+		id := "oasnestunused"
+		f := &File{Messages: []*Message{
+			M("AuditInfo", F("by", 1, "string"), F("deep", 2, "", Msg(q(id, "AuditDeep")))), M("AuditDeep", F("n", 1, "int32")),
+			M("Product", F("sku", 1, "string")),
+			M("Order", F("oid", 1, "string"), F("lines", 2, "", Msg(q(id, "Order.Line")), Rep())).WithNested(
+				M("Line", F("product", 1, "", Msg(q(id, "Product")))),
+				M("Revision", F("audit", 1, "", Msg(q(id, "AuditInfo"))), F("prev", 2, "", Msg(q(id, "Order.Revision")))).WithNested(M("Note", F("t", 1, "string")))),
+			res(),
+		}}
+		f.Services = []*Service{Svc("Orders", "/o", RPC("Get", q(id, "Order"), q(id, "Res"), "POST", "/get"))}
+		out = append(out, oasReq(id, f, "nested", "unused-nested"))
+	}
+	{ // several services of ONE file reaching the same annotated messages (each document must be complete on its own)
+		id := "oassharedsvc"
+		f := &File{Messages: []*Message{
+			M("Circle", F("r", 1, "double")), M("Square", F("side", 1, "double")),
+			M("Shape", F("id", 1, "string"), F("circle", 2, "", Msg(q(id, "Circle")), InOneof("kind")), F("square", 3, "", Msg(q(id, "Square")), InOneof("kind"))).
+				WithOneofs(&Oneof{Name: "kind", HasConfig: true, Discriminator: "type", Flatten: true}),
+			M("Tagged", F("id", 1, "string"), F("circle", 2, "", Msg(q(id, "Circle")), InOneof("kind")), F("note", 3, "string", InOneof("kind"))).
+				WithOneofs(&Oneof{Name: "kind", HasConfig: true, Discriminator: "type"}),
+			M("Addr", F("street", 1, "string")), M("Person", F("pid", 1, "string"), F("home", 2, "", Msg(q(id, "Addr")), Flatten(true), FlattenPrefix("home_"))),
+			M("Bar", F("t", 1, "int64")), M("BarList", F("bars", 1, "", Msg(q(id, "Bar")), Rep(), Unwrap())),
+			M("Wrap", F("shape", 1, "", Msg(q(id, "Shape"))), F("tagged", 2, "", Msg(q(id, "Tagged"))), F("person", 3, "", Msg(q(id, "Person"))), F("bars", 4, "", Msg(q(id, "BarList")))),
+			res(),
+		}}
+		f.Services = []*Service{
+			Svc("Draw", "/d", RPC("Put", q(id, "Shape"), q(id, "Res"), "POST", "/put"), RPC("PutWrap", q(id, "Wrap"), q(id, "Res"), "POST", "/wrap")),
+			Svc("Search", "/s", RPC("Find", q(id, "Res"), q(id, "Shape"), "POST", "/find"), RPC("FindAll", q(id, "Res"), q(id, "Wrap"), "POST", "/all")),
+			Svc("Third", "/t", RPC("Tag", q(id, "Tagged"), q(id, "Person"), "POST", "/tag"), RPC("Bars", q(id, "BarList"), q(id, "BarList"), "POST", "/bars")),
+		}
+		out = append(out, oasReq(id, f, "multi-service", "shared-annotated"))
+	}
 	{ // nested same-named types: Outer.Item vs Other.Item, both reachable
 		id := "oasnest"
 		f := &File{Messages: []*Message{
